@@ -685,6 +685,7 @@ func (s *muxerStream) rotateParts(
 				w.Header().Set("Cache-Control", "max-age="+segmentMaxAge)
 				w.Header().Set("Content-Type", "video/mp4")
 				w.WriteHeader(http.StatusOK)
+				verifYield("part.beforeCopy")
 				io.Copy(w, r)
 			})
 
@@ -713,6 +714,7 @@ func (s *muxerStream) rotateParts(
 
 				s.mutex.Unlock()
 
+				verifYield("preload.beforeDelegate")
 				if h != nil {
 					h(w, r)
 				}
@@ -807,6 +809,7 @@ func (s *muxerStream) rotateSegments(
 				}(),
 			)
 			w.WriteHeader(http.StatusOK)
+			verifYield("segment.beforeCopy")
 			io.Copy(w, r)
 		})
 
